@@ -547,6 +547,15 @@ pub fn check_c17(case: &Case, st: &mut Stats) -> Verdict {
         if let Some(e) = crate::alloc::take_error() {
             bad = Some(("alloc-misuse".to_string(), e));
         }
+        #[cfg(feature = "asan")]
+        {
+            extern "C" {
+                fn __lsan_do_recoverable_leak_check() -> i32;
+            }
+            if bad.is_none() && unsafe { __lsan_do_recoverable_leak_check() } != 0 {
+                bad = Some(("lsan-leak".to_string(), "LeakSanitizer reports memory that is no longer reachable after the run".to_string()));
+            }
+        }
         let live1 = crate::alloc::thread_live() as i64;
         (bad, live1 - live0, null_fired)
     };
@@ -578,4 +587,107 @@ pub fn check_c17(case: &Case, st: &mut Stats) -> Verdict {
         st.nontrivial.insert(h);
     }
     None
+}
+
+// ------------------------------------------------------------------------------------- tiny (interpreter-sized)
+
+/// Scenarios small enough for an interpreter: generated with short loops only.
+pub fn gen_tiny(rng: &mut Rng) -> Case {
+    let env = if rng.chance(1, 2) {
+        EnvPlan::whole()
+    } else {
+        EnvPlan { modes: vec![IoMode::Chop { max: 64 }], stream: rng.next_u64(), faults: vec![], crash: None, buffered: rng.chance(1, 2) }
+    };
+    let codec = *rng.pick(&[0u8, 0, 5, 3, 1]);
+    let file = |rng: &mut Rng, n: usize| -> FileSpec {
+        let levels = *rng.pick(&[0u8, 1, 2, 2]);
+        let mut ents = Vec::new();
+        for i in 0..n {
+            let mut k = vec![0x55u8; 40];
+            k.extend_from_slice(&(i as u32 * 3 + 1).to_be_bytes());
+            let vl = *rng.pick(&[0usize, 5, 300, 300, 950]);
+            ents.push((B(k), B(vec![i as u8; vl])));
+        }
+        FileSpec {
+            knobs: Knobs { codec, level: 1, block_size: Some(1024), interval: *rng.pick(&[None, Some(1), Some(3)]), levels, ctor: 0, fin: 0 },
+            entries: Entries::Literal(ents),
+        }
+    };
+    match rng.below(10) {
+        0..=4 => {
+            let thr = *rng.pick(&[128usize, 256, 512]);
+            let allow_realloc = rng.chance(1, 2);
+            let n = rng.urange(1, 28);
+            let mut ins = Vec::new();
+            for i in 0..n {
+                let kb = *rng.pick(&[1u8, 2, 3, 200]);
+                let kl = rng.urange(0, 3);
+                let key = vec![kb; kl];
+                let pad = match rng.below(8) {
+                    0 => thr * 2 + 7,
+                    1 => thr / 2,
+                    _ => rng.urange(0, 30),
+                };
+                ins.push((B(key), B(gen::record(i as u32, pad))));
+            }
+            Case::Sort(SortCase {
+                inserts: Entries::Literal(ins),
+                knobs: SortKnobs {
+                    raw_threshold: Some(thr),
+                    threshold_req: None,
+                    init_cap: if allow_realloc { Some(*rng.pick(&[16usize, 64, 128])) } else { None },
+                    allow_realloc,
+                    max_nb_chunks: *rng.pick(&[None, Some(1), Some(2)]),
+                    unstable: rng.chance(1, 3),
+                    parallel: rng.chance(1, 6),
+                    chunk_codec: Some(codec),
+                    chunk_level: None,
+                    block_size: Some(1024),
+                    interval: None,
+                    levels: *rng.pick(&[None, Some(1), Some(2)]),
+                    creator: 0,
+                },
+                alt_knobs: vec![],
+                mf: gen::gen_merge_kind(rng),
+                consume: rng.below(4) as u8,
+                out_knobs: Knobs { codec, level: 1, block_size: Some(1024), interval: None, levels: 1, ctor: 0, fin: 0 },
+                env,
+            })
+        }
+        5 | 6 => {
+            let n = rng.urange(0, 24);
+            let spec = file(rng, n);
+            let keys: Vec<Vec<u8>> = spec.entries.materialize().into_iter().map(|(k, _)| k).collect();
+            let mut steps = crate::props_cursor::gen_history(rng, &keys, 12, 3);
+            for st in steps.iter_mut() {
+                if let Op::NextN(k) | Op::PrevN(k) = &mut st.op {
+                    *k = (*k).min(6);
+                }
+            }
+            Case::Cursor(CursorCase { spec, env, steps, fresh_each: false, v1: false })
+        }
+        7 => {
+            let n = rng.urange(0, 20);
+            let spec = file(rng, n);
+            let keys: Vec<Vec<u8>> = spec.entries.materialize().into_iter().map(|(k, _)| k).collect();
+            let queries = crate::props_iter::gen_queries(rng, &keys, 3, 2);
+            Case::Iter(IterCase { spec, env, queries, v1: false })
+        }
+        _ => {
+            let k = rng.urange(1, 3);
+            let mut sources = Vec::new();
+            for _ in 0..k {
+                let n = rng.urange(0, 8);
+                sources.push(file(rng, n));
+            }
+            Case::Merge(MergeCase {
+                attach: (0..k).map(|_| rng.below(3) as u8).collect(),
+                sources,
+                mf: gen::gen_merge_kind(rng),
+                out_mode: rng.below(2) as u8,
+                out_knobs: Knobs { codec, level: 1, block_size: Some(1024), interval: None, levels: 1, ctor: 0, fin: 1 },
+                env,
+            })
+        }
+    }
 }
